@@ -111,7 +111,7 @@ Definition spec_select (l : list cop) : bool :=
             forallb (fun sc => match sc with SRecv c => negb (recv_certainly_ready c l k) | _ => true end) cs
         | None => false
         end
-    | OSelect _, (RErrRefused | RErrSendClosed) => true
+    | OSelect _, (RErrRefused | RErrSendClosed | RErrLimit) => true
     | OSelect _, _ => false
     | _, _ => true
     end) l.
@@ -136,13 +136,18 @@ Definition spec_filter (l : list cop) : bool :=
   forallb (fun k => Bool.eqb (op_offers_refused (co k))
                              (match cr k with RErrRefused => true | _ => false end)) l.
 
-(* (6) result shapes of the plain operations *)
+(* (6) result shapes of the plain operations.  A receive or select may end in the calling state's
+   own resource error (RErrLimit: "registry overflow" / "stack overflow"); such an operation counts
+   as neither a send nor a receipt in clauses (1)-(4), so a value it took out of a channel shows up
+   there as lost (a later `default` with the value certainly there, a closure report with the value
+   undelivered) and a value it passed on as received but never sent. *)
 Definition spec_shape (l : list cop) : bool :=
   forallb (fun k =>
     match co k, cr k with
     | OSend _ _, (RSendOk | RErrRefused | RErrSendClosed) => true
     | ORecv _, RRecv true _ => true
     | ORecv _, RRecv false v => value_eqb v VNil
+    | ORecv _, RErrLimit => true
     | OClose _, (RCloseOk | RErrCloseClosed) => true
     | OSelect _, _ => true
     | _, _ => false
